@@ -58,6 +58,11 @@ func checkC17(c *Ctx) {
 		var skipVals []*pw.Val
 		var nowForLastRun *pw.Val
 		for i, ev := range p.Events {
+			// the clock is read inside the critical section: a caller that waited on the mutex behind a running invalidation must be
+			// judged by (and must record) the time it is admitted, not the time it arrived
+			if ev.Kind == pw.EvCall && ev.Role == "Std:time.Now" && !held(i) && (ev.Frame == nil || ev.Frame.Parent == nil) {
+				r.Bad("R17.2", name, "clock-read-outside-lock", c.Pos(ev.Pos), "time.Now() is read without holding the mutex: a call that waited for the lock compares and records its arrival time, accepted calls are then spaced by less than SkipInterval", shortTrace(p))
+			}
 			switch {
 			case ev.Kind == pw.EvCall && ev.CalleeVal != nil && ev.Callee == nil:
 				cbCalls = append(cbCalls, i)
